@@ -60,11 +60,13 @@ theorem StartE.act (hs : StartE s0 c sec i) (hb : i + 1 ∈ boundaries sec) {a :
   | create ci => trivial
   | eofCreate ci => trivial
 
-theorem StartE.lt (hs : StartE s0 c sec i) : i < sec.length := ((hs.ok.wf.secs _ _ hs.hsec).2 _ hs.bdry).1
+theorem StartE.lt (hs : StartE s0 c sec i) : i < sec.length := ((hs.ok.wf.secs _ _ hs.hsec).2.2 _ hs.bdry).1
+
+theorem StartE.bytes (hs : StartE s0 c sec i) : ∀ b ∈ sec, b < 256 := (hs.ok.wf.secs _ _ hs.hsec).1
 
 theorem StartE.instrOk (hs : StartE s0 c sec i) :
     instrOk (boundaries sec) c.types c.containers c.curIdx sec i = true :=
-  ((hs.ok.wf.secs _ _ hs.hsec).2 _ hs.bdry).2
+  ((hs.ok.wf.secs _ _ hs.hsec).2.2 _ hs.bdry).2
 
 /-! ### PUSHn, JUMP, JUMPI in EOF code -/
 
@@ -185,7 +187,7 @@ theorem callfI_sat (hs : StartE s0 c sec i) (himm : i + 3 ≤ sec.length)
         refine sat_ok ⟨?_, ?_⟩
         · refine invE_load hs h1
             { c with retStack := (c.curIdx, s1.pc + 2) :: c.retStack, curIdx := u16At sec (i + 1) }
-            _ 0 rfl rfl rfl rfl hidx' ?_ ?_ hsec' (hs.ok.wf.secs _ _ hsec').1
+            _ 0 rfl rfl rfl rfl hidx' ?_ ?_ hsec' (hs.ok.wf.secs _ _ hsec').2.1
           · show (c.retStack.length + 1) ≤ 1024
             omega
           · show (∃ sec', c.sections[c.curIdx]? = some sec' ∧ s1.pc + 2 ∈ boundaries sec') ∧
@@ -285,7 +287,7 @@ theorem jumpfI_sat (hs : StartE s0 c sec i) (himm : i + 3 ≤ sec.length)
       simp only []
       refine sat_ok ⟨?_, ?_⟩
       · refine invE_load hs h1 { c with curIdx := u16At sec (i + 1) } _ 0 rfl rfl rfl rfl hidx' hs.ok.depth ?_
-          hsec' (hs.ok.wf.secs _ _ hsec').1
+          hsec' (hs.ok.wf.secs _ _ hsec').2.1
         show FramesOk c.sections c.types (u16At sec (i + 1)) c.retStack
         have hfr := hs.ok.frames
         cases hrs : c.retStack with
